@@ -585,9 +585,23 @@ class WOFFDirectoryEntry(DirectoryEntry):
         if self.length == self.origLength:
             data = rawData
         else:
-            assert self.length < self.origLength
-            data = zlib.decompress(rawData)
-            assert len(data) == self.origLength
+            if self.length > self.origLength:
+                raise TTLibError(
+                    "corrupt WOFF table directory: '%s' table is longer compressed "
+                    "than uncompressed" % self.tag
+                )
+            try:
+                data = zlib.decompress(rawData)
+            except zlib.error as e:
+                raise TTLibError(
+                    "corrupt WOFF font: cannot decompress '%s' table (%s)"
+                    % (self.tag, e)
+                ) from e
+            if len(data) != self.origLength:
+                raise TTLibError(
+                    "corrupt WOFF font: unexpected length of decompressed '%s' table"
+                    % self.tag
+                )
         return data
 
     def encodeData(self, data):
@@ -618,14 +632,24 @@ class WOFFFlavorData:
             if reader.metaLength:
                 reader.file.seek(reader.metaOffset)
                 rawData = reader.file.read(reader.metaLength)
-                assert len(rawData) == reader.metaLength
-                data = self._decompress(rawData)
-                assert len(data) == reader.metaOrigLength
+                if len(rawData) != reader.metaLength:
+                    raise TTLibError("corrupt font: metadata block is truncated")
+                try:
+                    data = self._decompress(rawData)
+                except Exception as e:
+                    raise TTLibError(
+                        "corrupt font: cannot decompress metadata block (%s)" % e
+                    ) from e
+                if len(data) != reader.metaOrigLength:
+                    raise TTLibError(
+                        "corrupt font: unexpected length of decompressed metadata"
+                    )
                 self.metaData = data
             if reader.privLength:
                 reader.file.seek(reader.privOffset)
                 data = reader.file.read(reader.privLength)
-                assert len(data) == reader.privLength
+                if len(data) != reader.privLength:
+                    raise TTLibError("corrupt font: private data block is truncated")
                 self.privData = data
 
     def _decompress(self, rawData):
